@@ -5,20 +5,27 @@
 package c10
 
 import (
+	"bytes"
 	"context"
 	"encoding/json"
 	"errors"
 	"fmt"
+	"io"
 	"math/rand/v2"
+	"net/http"
 	"os"
 	"path/filepath"
 	"reflect"
 	"sort"
 	"strings"
+	"sync"
 	"sync/atomic"
 	"testing"
 	"testing/synctest"
 	"time"
+	"verif/harness/internal/httpdrv"
+	"verif/harness/internal/realdb"
+	"verif/harness/internal/refmodel"
 
 	"github.com/tailscale/setec/client/setec"
 	"github.com/tailscale/setec/types/api"
@@ -240,7 +247,10 @@ func TestC10(t *testing.T) {
 		runCase(t, r, c, tmp)
 	}
 	stop()
-	r.Require("returned_nil", "returned_error_ctx", "complete_cache_no_request", "retry_rounds", "fileclient_missing", "fileclient_entries_without_value", "misconfig", "cache_ignored_as_invalid")
+	if r.Only < 0 {
+		realClientOddReplies(t, r, tmp)
+	}
+	r.Require("real_client_odd_replies", "returned_nil", "returned_error_ctx", "complete_cache_no_request", "retry_rounds", "fileclient_missing", "fileclient_entries_without_value", "misconfig", "cache_ignored_as_invalid")
 	r.Rule("seeded cases = declared names (1-6 of a 6-name pool, with duplicates, via Secrets and/or a run-time generated tagged struct) x cache content (none, empty, partial, complete, stale, invalid JSON, null entry, entry without secret, empty key, wrong JSON type, one entry with a wrongly typed field, read error) x per-secret service script (ok, fail k times, fail k times with the client's own timeout error, fail until T, hang until T, slow, never; failures with and without the context error wrapped) x expiry age {0, 1h, 30d} with old/zero/future cache stamps x context (background, deadline, cancel at T) x client kind (scripted / real FileClient). Distinct = (cache kind, set of script modes, context kind, client kind, outcome)")
 }
 
@@ -607,4 +617,95 @@ func runCase(t *testing.T, r *evid.Run, c tcase, tmp string) {
 			fail("late-after-context-end", fmt.Sprintf("context ended at %v but NewStore returned only at %v", ctxEnd, o.at), map[string]any{"log": log})
 		}
 	})
+}
+
+// realClientOddReplies: the REAL network client in front of a real server, with something in between (a proxy,
+// a load balancer) that answers some requests oddly: 200 with an empty or whitespace body, with a
+// cut-off document, with an HTML page; 204; 502. None of that is a value: construction keeps retrying and ends
+// with the real value of every declared secret.
+func realClientOddReplies(t *testing.T, r *evid.Run, tmp string) {
+	d, err := realdb.Open(filepath.Join(tmp, "odd.db"), realdb.DummyKey("c10odd"))
+	if err != nil {
+		t.Fatal(err)
+	}
+	su := realdb.Super()
+	names := []string{"alpha", "bravo", "charlie"}
+	for _, n := range names {
+		d.Put(su, n, svcValue(n))
+	}
+	srv, err := httpdrv.New(d)
+	if err != nil {
+		t.Fatal(err)
+	}
+	const addr = "100.64.0.10:10"
+	srv.SetWho(addr, httpdrv.Who{Login: "c10@verif", Node: "c10", Rules: []refmodel.Rule{{Actions: []string{"get"}, Patterns: []string{"*"}}}})
+	inner := srv.ClientDo(addr)
+	type odd struct {
+		name, ctype, body string
+		status            int
+	}
+	// (replies that ARE well-formed JSON values of some other meaning - null, {} - are a broken service rather than
+	// a failing one and are left out: the property's scripts are failures and recoveries)
+	odds := []odd{{"empty 200", "application/json", "", 200}, {"whitespace 200", "application/json", " \n", 200},
+		{"cut-off 200", "application/json", `{"Value":"c3Zj`, 200}, {"html 200", "text/html", "<html>please log in</html>", 200},
+		{"204", "", "", 204}, {"502", "text/plain", "bad gateway", 502}, {"wrong type 200", "application/json", `"a string"`, 200}}
+	for oi, o := range odds {
+		for target := range names {
+			var mu sync.Mutex
+			seen := map[string]int{}
+			do := func(req *http.Request) (*http.Response, error) {
+				var gr api.GetRequest
+				if req.Body != nil {
+					b, _ := io.ReadAll(req.Body)
+					json.Unmarshal(b, &gr)
+					req.Body = io.NopCloser(bytes.NewReader(b))
+				}
+				mu.Lock()
+				seen[gr.Name]++
+				first := seen[gr.Name] == 1
+				mu.Unlock()
+				if first && gr.Name == names[target] {
+					h := http.Header{}
+					if o.ctype != "" {
+						h.Set("Content-Type", o.ctype)
+					}
+					return &http.Response{StatusCode: o.status, Status: fmt.Sprint(o.status), Header: h, Body: io.NopCloser(strings.NewReader(o.body)), Request: req, Proto: "HTTP/1.1", ProtoMajor: 1, ProtoMinor: 1}, nil
+				}
+				return inner(req)
+			}
+			cl := setec.Client{Server: "http://setec.verif", DoHTTP: do}
+			ctx, cancel := context.WithTimeout(context.Background(), 20*time.Second)
+			var st *setec.Store
+			var err error
+			pan := func() (p any) {
+				defer func() { p = recover() }()
+				st, err = setec.NewStore(ctx, setec.StoreConfig{Client: cl, Secrets: names, PollInterval: -1, Logf: func(string, ...any) {}})
+				return nil
+			}()
+			cancel()
+			r.Eval(1)
+			r.Count("real_client_odd_replies", 1)
+			r.Distinct("real client, first reply " + o.name)
+			what := fmt.Sprintf("real client, the first reply for %q is %s (%d)", names[target], o.name, oi)
+			if pan != nil {
+				r.Violation("newstore-panics", -1, fmt.Sprintf("%s: NewStore panicked: %v", what, pan), nil)
+				continue
+			}
+			if err != nil {
+				r.Violation("error-while-context-alive", -1, fmt.Sprintf("%s: NewStore gave up: %v", what, err), nil)
+				continue
+			}
+			for _, n := range names {
+				got, gp := func() (b []byte, p any) {
+					defer func() { p = recover() }()
+					return st.Secret(n).Get(), nil
+				}()
+				if gp != nil || !bytes.Equal(got, svcValue(n)) {
+					r.Violation("returned-before-all-fetched", -1, fmt.Sprintf("%s: NewStore returned nil but %q yields %q (panic: %v); the service holds %q", what, n, got, gp, svcValue(n)), nil)
+					break
+				}
+			}
+			st.Close()
+		}
+	}
 }
